@@ -25,6 +25,7 @@ type Loaded struct {
 	LoadS     float64
 	overlay   map[string][]byte
 	redirects map[string]*ssa.Function
+	redirectsDo map[string]*ssa.Function // library cuts that apply only inside the real (*Client).do
 	repo      string
 }
 
@@ -69,6 +70,11 @@ func Load(patterns ...string) (*Loaded, error) {
 	t0 := time.Now()
 	repo := repoDir()
 	ov, err := buildOverlay(repo)
+	if err == nil {
+		for path, src := range engineOnly {
+			ov[filepath.Join(repo, path)] = []byte(src)
+		}
+	}
 	if err != nil {
 		return nil, err
 	}
@@ -97,7 +103,7 @@ func Load(patterns ...string) (*Loaded, error) {
 	}
 	prog, _ := ssautil.AllPackages(pkgs, ssa.InstantiateGenerics|ssa.BareInits)
 	prog.Build()
-	ld := &Loaded{prog: prog, pkgs: pkgs, byPath: map[string]*ssa.Package{}, extraInit: map[string]bool{}, overlay: ov, repo: repo, redirects: map[string]*ssa.Function{}}
+	ld := &Loaded{prog: prog, pkgs: pkgs, byPath: map[string]*ssa.Package{}, extraInit: map[string]bool{}, overlay: ov, repo: repo, redirects: map[string]*ssa.Function{}, redirectsDo: map[string]*ssa.Function{}}
 	for _, p := range prog.AllPackages() {
 		ld.byPath[p.Pkg.Path()] = p
 	}
@@ -106,6 +112,13 @@ func Load(patterns ...string) (*Loaded, error) {
 		if p := ld.byPath[target[0]]; p != nil {
 			if f := p.Func(target[1]); f != nil {
 				ld.redirects[key] = f
+			}
+		}
+	}
+	for key, target := range redirectTableDo {
+		if p := ld.byPath[target[0]]; p != nil {
+			if f := p.Func(target[1]); f != nil {
+				ld.redirectsDo[key] = f
 			}
 		}
 	}
@@ -150,6 +163,37 @@ var redirectTable = map[string][2]string{
 	"(net.IP).IsLoopback":                                 {repoMod + "/shovel/web", "zzIPIsLoopback"},
 	"filippo.io/age.GenerateX25519Identity":               {repoMod + "/shovel/web", "zzAgeIdentity"},
 	"(*" + repoMod + "/shovel/web.Handler).template":      {repoMod + "/shovel/web", "zzTemplate"},
+}
+
+// engineOnly: files that exist only in the engine's overlay. zzRealDo is the
+// door to the uncut (*Client).do: the engine does not redirect a call of do
+// made from zzRealDo, and applies redirectTableDo (the library calls inside
+// do) while it runs. Natively the cut renames the original to zzOrigDo and the
+// wrapper file defines zzRealDo accordingly.
+var engineOnly = map[string]string{
+	"jrpc2/zz_engine_only.go": `package jrpc2
+
+import "context"
+
+func zzRealDo(c *Client, ctx context.Context, url string, dest, req any) error {
+	return c.do(ctx, url, dest, req)
+}
+`,
+}
+
+const doKey = "(*" + repoMod + "/jrpc2.Client).do"
+
+var redirectTableDo = map[string][2]string{
+	"io.Pipe":                         {repoMod + "/jrpc2", "zzPipe"},
+	"(*io.PipeWriter).Close":          {repoMod + "/jrpc2", "zzPipeWClose"},
+	"github.com/goccy/go-json.NewEncoder":         {repoMod + "/jrpc2", "zzNewEncoder"},
+	"(*github.com/goccy/go-json.Encoder).Encode":  {repoMod + "/jrpc2", "zzEncode"},
+	"net/http.NewRequest":             {repoMod + "/jrpc2", "zzNewRequest"},
+	"(net/http.Header).Add":           {repoMod + "/jrpc2", "zzHeaderAdd"},
+	"(*net/http.Client).Do":           {repoMod + "/jrpc2", "zzClientDo"},
+	"io.ReadAll":                      {repoMod + "/jrpc2", "zzReadAll"},
+	"github.com/goccy/go-json.NewDecoder":         {repoMod + "/jrpc2", "zzNewDecoder"},
+	"(*github.com/goccy/go-json.Decoder).Decode":  {repoMod + "/jrpc2", "zzDecode"},
 }
 
 // nativeCuts: how the same cut points are applied for native replay. The
@@ -233,6 +277,10 @@ import "context"
 
 func (c *Client) do(ctx context.Context, url string, dest, req any) error {
 	return zzDo(c, ctx, url, dest, req)
+}
+
+func zzRealDo(c *Client, ctx context.Context, url string, dest, req any) error {
+	return c.zzOrigDo(ctx, url, dest, req)
 }
 `,
 	},
